@@ -70,6 +70,10 @@ def prefixes(rnd, tier):
         for gap in range(0, 36):
             dec = rnd.choice(DECOYS)
             out.append(('decoy-%s-gap' % mk[:3].decode(), rb(rnd.choice([0, 5, 40])) + mk + rb(gap) + dec + rb(rnd.choice([30, 31, 64, 200]))))
+        # the decoy may sit anywhere behind the marker (real self-extractors: hundreds to thousands of bytes), up to the scan limit
+        for gap in [100, 394, 642, 1000, 3537, 4095, 4096, 4097, 9000, 60000, 200000] + [rnd.randrange(36, 150000) for _ in range(2 if tier == 'quick' else 20)]:
+            dec = rnd.choice(DECOYS)
+            out.append(('decoy-%s-far' % mk[:3].decode(), rb(rnd.choice([0, 5, 40])) + mk + rb(gap) + dec + rb(rnd.choice([30, 64, 2000]))))
     return out
 
 
@@ -263,7 +267,7 @@ def run(ctx):
     ctx.cov['archives'] = len(base)
     ctx.cov['truncated_variants'] = len(trunc)
     ctx.cov['rule'] = ('(archive, stream kind, prefix) triples; archives = corpus + generated + four-member archives whose first/third stored members have sizes on and around powers of two and multiples of 512/4096 + truncations; prefixes = stub bytes without "-" '
-                       'and "L" at every length 0..64, around multiples of 12/24, near the 255 KiB limit, random lengths, near misses of the marker strings (prefixes, single-character changes, case changes), and marker+decoy forms at '
+                       'and "L" at every length 0..64, around multiples of 12/24, near the 255 KiB limit, random lengths, near misses of the marker strings (prefixes, single-character changes, case changes), and marker+decoy forms at gaps up to 200 000 bytes and at '
                        'gaps 0..35; reference = callbacks-with-skip on the bare archive; distinct by (archive, kind, prefix); non-trivial = '
                        'archive has at least one member and the triple is not the reference itself')
     ctx.assumptions.append('prefix bytes are drawn from a subset that cannot form a signature across the P/A junction')
